@@ -40,6 +40,12 @@ impl<'a> EncoderResult<'a> {
     pub(crate) fn new(work: &'a mut EncoderWork) -> Self {
         Self { work }
     }
+
+    /// Verification hook: the working space this result borrows.
+    #[cfg(feature = "verif-hooks")]
+    pub fn verif_work(&self) -> &EncoderWork {
+        self.work
+    }
 }
 
 // ======================================================================
